@@ -487,6 +487,12 @@ theorem handle_sim (k : Consts) (m : List String) (kw : CKw) (a b : State) (h : 
   | actionx x => exact h
   | endactio => exact h
   | compord c => exact h
+  | msw o =>
+    simp only [handle]
+    rw [h.p]
+    cases segStep b.p o with
+    | error e => exact rfl
+    | ok sm => exact ⟨rfl, h.c, h.st⟩
 
 theorem addAction_sim (a b : State) (n : String) (body : List CKw) (h : Sim a b) : Sim (addAction a n body) (addAction b n body) :=
   ⟨by simp only [addAction, h.p], h.c, h.st⟩
@@ -521,6 +527,18 @@ theorem runKws_sim (k : Consts) (kws : List CKw) (acc : Option (String × List C
       | compord c =>
         simp only [runKws, handle]
         exact ih _ a b h
+      | msw o =>
+        simp only [runKws]
+        have := handle_sim k [] (.msw o) a b h
+        cases ha : handle k [] a (.msw o) with
+        | error e =>
+          cases hb : handle k [] b (.msw o) with
+          | error e' => rw [ha, hb] at this; exact this
+          | ok b' => rw [ha, hb] at this; exact this.elim
+        | ok a' =>
+          cases hb : handle k [] b (.msw o) with
+          | error e' => rw [ha, hb] at this; exact this.elim
+          | ok b' => rw [ha, hb] at this; exact ih _ a' b' this
     | some v =>
       obtain ⟨n, ac⟩ := v
       cases kw with
@@ -528,6 +546,7 @@ theorem runKws_sim (k : Consts) (kws : List CKw) (acc : Option (String × List C
       | ops n' rs => simp only [runKws]; exact ih _ a b h
       | actionx n' => simp only [runKws]; exact ih _ a b h
       | compord c => simp only [runKws]; exact rfl
+      | msw o => simp only [runKws]; exact ih _ a b h
 
 theorem endReport_sim (a b : State) (h : Sim a b) : Sim (endReport a) (endReport b) := by
   refine ⟨h.p, h.c, fun w => ?_⟩
@@ -827,6 +846,12 @@ theorem Rel_handle (k : Consts) (m : List String) (kw : CKw) (hnc : noConnKw kw 
   | actionx x => exact h
   | endactio => exact h
   | compord c => exact h
+  | msw o =>
+    simp only [handle]
+    rw [h.p]
+    cases segStep b.p o with
+    | error e => exact rfl
+    | ok sm => exact ⟨rfl, h.cm, h.g, fun w => by have := h.st w; rw [h.p] at this; exact this⟩
 
 theorem Rel_runBody (k : Consts) (body : List CKw) (hnc : body.all noConnKw = true) (a b : State) (h : Rel a b) :
     ExRel Rel (runBody k a body) (runBody k b body) := by
@@ -905,6 +930,7 @@ theorem substBody_noConn (ws : List String) (body : List CKw) (h : body.all noCo
     | actionx a => rfl
     | endactio => rfl
     | compord c => rfl
+    | msw o => rfl
 
 /-- What the two variants of the apply-equals-inline argument need from the body: its handlers
 succeed on the stored (closed) snapshot only if they succeed on the state before closing, and
@@ -1271,6 +1297,11 @@ theorem runKws_mark_eq (k : Consts) (kws : List CKw) (acc : Option (String × Li
       | compord c =>
         simp only [runKws, handle] at h
         exact ih _ _ h
+      | msw o =>
+        simp only [runKws] at h
+        cases hh : handle k [] u (.msw o) with
+        | error e => rw [hh] at h; cases h
+        | ok u' => rw [hh] at h; simp only [] at h; rw [ih _ _ h, handle_mark_eq k u u' _ hh]
     | some x =>
       obtain ⟨n, ac⟩ := x
       cases kw with
@@ -1278,6 +1309,7 @@ theorem runKws_mark_eq (k : Consts) (kws : List CKw) (acc : Option (String × Li
       | ops n' rs => simp only [runKws] at h; exact ih _ _ h
       | actionx n' => simp only [runKws] at h; exact ih _ _ h
       | compord c => simp only [runKws] at h; cases h
+      | msw o => simp only [runKws] at h; exact ih _ _ h
 
 theorem stepBlock_mark (k : Consts) (s s' : State) (b : List CKw) (h : stepBlock k s b = .ok s') : s'.mark = [] := by
   unfold stepBlock at h
